@@ -273,6 +273,9 @@ pub enum Op {
     Flush,
     DropH { slot: usize },
     CloneH { slot: usize },
+    /// get_or_fetch whose origin returns a fresh value at once; the runtime is driven to quiescence.
+    /// Behaves like `Get` on a resident key and like `Ins` (normal hint, admitted) otherwise.
+    Fetch { k: u64, w: usize, hold: bool },
 }
 
 impl Op {
@@ -294,6 +297,7 @@ impl Op {
             Op::Flush => "flush".into(),
             Op::DropH { slot } => format!("drop(h{slot})"),
             Op::CloneH { slot } => format!("clone(h{slot})"),
+            Op::Fetch { k, w, hold } => format!("fetch(k{k},w{w}{})", if hold { ",hold" } else { "" }),
         }
     }
 
@@ -336,6 +340,11 @@ impl Op {
             "clone" => Op::CloneH {
                 slot: num(parts.first()?)? as usize,
             },
+            "fetch" => Op::Fetch {
+                k: num(parts.first()?)?,
+                w: num(parts.get(1)?)? as usize,
+                hold: has("hold"),
+            },
             _ => return None,
         })
     }
@@ -364,6 +373,23 @@ pub struct Driver {
     pub n_evictions: u64,
     pub n_hits: u64,
     pub n_events: u64,
+    /// The current Ins / Get step is performed through `get_or_fetch`.
+    via_fetch: bool,
+}
+
+/// `get_or_fetch` with an origin that resolves at once; drives the runtime until the entry is there.
+fn fetch_now(cache: &MC, k: u64, v: u64) -> ME {
+    use std::future::Future;
+    let mut fut = Box::pin(cache.get_or_fetch(&DK(k), move || async move { Ok::<DV, anyhow::Error>(DV(v)) }));
+    let waker = tokio::sim::noop_waker();
+    let mut cx = std::task::Context::from_waker(&waker);
+    for _ in 0..4 {
+        if let std::task::Poll::Ready(r) = fut.as_mut().poll(&mut cx) {
+            return r.expect("get_or_fetch with an infallible origin failed");
+        }
+        tokio::sim::run_until_stalled(10_000);
+    }
+    panic!("get_or_fetch did not resolve although its origin is ready and the runtime is idle");
 }
 
 fn eviction_config(a: &Algo) -> EvictionConfig {
@@ -426,6 +452,7 @@ fn guard<R>(what: &str, out: &mut Vec<Complaint>, f: impl FnOnce() -> R) -> Opti
 
 impl Driver {
     pub fn new(cfg: MemCfg, universe: Vec<u64>) -> Self {
+        tokio::sim::reset();
         let rec = Arc::new(Recorder::default());
         let hasher = VHash {
             table: Arc::new(cfg.hash_table.clone()),
@@ -449,6 +476,7 @@ impl Driver {
             n_evictions: 0,
             n_hits: 0,
             n_events: 0,
+            via_fetch: false,
         }
     }
 
@@ -630,7 +658,14 @@ impl Driver {
                 let v = enc_value(id, w, reject);
                 let shard = self.shard_of(k);
                 let props = CacheProperties::default().with_hint(if low { Hint::Low } else { Hint::Normal });
-                let e = guard("insert", &mut out, || cache.insert_with_properties(DK(k), DV(v), props));
+                let via_fetch = self.via_fetch;
+                let e = guard(if via_fetch { "get_or_fetch" } else { "insert" }, &mut out, || {
+                    if via_fetch {
+                        fetch_now(&cache, k, v)
+                    } else {
+                        cache.insert_with_properties(DK(k), DV(v), props)
+                    }
+                });
                 let Some(e) = e else { return out };
                 let evs = self.take_events();
                 let piped = self.take_piped();
@@ -761,7 +796,14 @@ impl Driver {
             }
             Op::Get { k, hold } => {
                 let shard = self.shard_of(k);
-                let got = guard("get", &mut out, || cache.get(&DK(k)));
+                let via_fetch = self.via_fetch;
+                let got = guard(if via_fetch { "get_or_fetch" } else { "get" }, &mut out, || {
+                    if via_fetch {
+                        Some(fetch_now(&cache, k, u64::MAX))
+                    } else {
+                        cache.get(&DK(k))
+                    }
+                });
                 let Some(got) = got else { return out };
                 let want = self.ledger.find(shard, k);
                 match (got, want) {
@@ -950,6 +992,25 @@ impl Driver {
                 let evs = self.take_events();
                 let piped = self.take_piped();
                 self.follow_bulk_evictions(&evs, &piped, None, "flush", true, &mut out);
+            }
+            Op::Fetch { k, w, hold } => {
+                let shard = self.shard_of(k);
+                let inner = if self.ledger.find(shard, k).is_some() {
+                    Op::Get { k, hold }
+                } else {
+                    Op::Ins {
+                        k,
+                        w,
+                        low: false,
+                        reject: false,
+                        hold,
+                    }
+                };
+                drop(cache);
+                self.via_fetch = true;
+                let r = self.step(&inner);
+                self.via_fetch = false;
+                return r;
             }
             Op::DropH { slot } => {
                 if let Some(Some((e, id))) = self.slots.get_mut(slot).map(|s| s.take()) {
